@@ -43,7 +43,7 @@ fn i2f_single<S: IntS + ToSample<f32> + ToSample<f64>>(v: i128) -> Option<String
 fn i2f_sweep<S: IntS + ToSample<f32> + ToSample<f64>>(ctx: &Ctx, tot: &Tot, dom: &Domain) {
     let min = S::FMT.min();
     dom.pieces.par_iter().for_each(|piece| {
-        guard::enter(&json!({"sys":"i2f","src":S::FMT.name(),"piece":piece.describe()}).to_string());
+        let _guard_scope = guard::scoped(&json!({"sys":"i2f","src":S::FMT.name(),"piece":piece.describe()}).to_string());
         let mut n = 0u64;
         let mut ch = 0u64;
         let mut prev: Option<(f32, f64)> = None;
@@ -140,7 +140,7 @@ fn rounding_points(f: Fmt) -> Vec<i128> {
 
 fn i2f_points<S: IntS + ToSample<f32> + ToSample<f64>>(ctx: &Ctx, tot: &Tot, pts: &[i128]) {
     pts.par_chunks(1 << 14).for_each(|ch| {
-        guard::enter(&json!({"sys":"i2f","src":S::FMT.name(),"v":ch[0].to_string(),"note":"rounding lattice chunk"}).to_string());
+        let _guard_scope = guard::scoped(&json!({"sys":"i2f","src":S::FMT.name(),"v":ch[0].to_string(),"note":"rounding lattice chunk"}).to_string());
         for &v in ch {
             if let Some(m) = i2f_single::<S>(v) {
                 ctx.violation(&format!("i2f.{}", S::FMT.name()), json!({"sys":"i2f","src":S::FMT.name(),"v":v.to_string()}), m, Some(&|| i2f_single::<S>(v)));
@@ -209,7 +209,7 @@ fn f64_pieces(thorough: bool) -> Vec<Piece> {
 fn f2i_sweep<T: IntS + FromSample<f32> + FromSample<f64>>(ctx: &Ctx, tot: &Tot, p32: &[Piece], p64: &[Piece]) {
     for (from32, pieces) in [(true, p32), (false, p64)] {
         pieces.par_iter().for_each(|piece| {
-            guard::enter(&json!({"sys":"f2i","dst":T::FMT.name(),"from32":from32,"piece":piece.describe()}).to_string());
+            let _guard_scope = guard::scoped(&json!({"sys":"f2i","dst":T::FMT.name(),"from32":from32,"piece":piece.describe()}).to_string());
             let mut n = 0u64;
             let mut ch = 0u64;
             let mut prev = i128::MIN;
@@ -271,7 +271,7 @@ fn boundary_single<T: IntS + FromSample<f32> + FromSample<f64> + ToSample<f32> +
 fn boundary_sweep<T: IntS + FromSample<f32> + FromSample<f64> + ToSample<f32> + ToSample<f64>>(ctx: &Ctx, tot: &Tot, dom: &Domain) {
     let min = T::FMT.min();
     dom.pieces.par_iter().for_each(|piece| {
-        guard::enter(&json!({"sys":"boundary","fmt":T::FMT.name(),"piece":piece.describe()}).to_string());
+        let _guard_scope = guard::scoped(&json!({"sys":"boundary","fmt":T::FMT.name(),"piece":piece.describe()}).to_string());
         let mut n = 0u64;
         let mut bad = None;
         piece.for_each(|u| {
@@ -327,7 +327,7 @@ fn around(b: u32) -> [f64; 7] {
 
 fn ff_sweep(ctx: &Ctx, tot: &Tot, pieces: &[Piece]) {
     pieces.par_iter().for_each(|piece| {
-        guard::enter(&json!({"sys":"ff","piece":piece.describe()}).to_string());
+        let _guard_scope = guard::scoped(&json!({"sys":"ff","piece":piece.describe()}).to_string());
         let mut n = 0u64;
         let mut bad32 = None;
         let mut bad64 = None;
@@ -384,7 +384,7 @@ fn replay(v: &Value) -> Option<String> {
 fn main() {
     let ctx = Ctx::new("C02", "release");
     if let Some(v) = ctx.replay_case() {
-        guard::enter(&v.to_string());
+        let _guard_scope = guard::scoped(&v.to_string());
         ctx.finish_replay(catch(|| replay(&v)).unwrap_or_else(|p| Some(format!("panic: {p}"))));
     }
     guard::set_hang_secs(900);
